@@ -139,6 +139,16 @@ func main() {
 		switch *discover {
 		case "exhaust":
 			discoverExhaust(p)
+		case "errdead":
+			all := map[string]bool{}
+			for _, k := range analysedPkgs {
+				all[k] = true
+			}
+			errDeadSites(p, all, func(fn *ssa.Function, c *ssa.Call, name string, dead bool) {
+				if dead {
+					fmt.Printf("%s %s %s DEAD\n", p.Pos(c.Pos()), funcName(fn), name)
+				}
+			})
 		case "errloop":
 			all := map[string]bool{}
 			for _, k := range analysedPkgs {
